@@ -2,6 +2,7 @@ package op
 
 import (
 	"context"
+	"errors"
 	"fmt"
 	"log/slog"
 	"net/http"
@@ -477,6 +478,11 @@ func (o *Provider) HttpHandler() http.Handler {
 	return o
 }
 
+// errKeySetUnavailable is wrapped by [OpenIDKeySet.VerifySignature] when the Storage
+// fails to return the key set, so that callers can tell "the token is invalid"
+// from "the token could not be checked".
+var errKeySetUnavailable = errors.New("error fetching keys")
+
 type OpenIDKeySet struct {
 	Storage
 }
@@ -486,7 +492,7 @@ type OpenIDKeySet struct {
 func (o *OpenIDKeySet) VerifySignature(ctx context.Context, jws *jose.JSONWebSignature) ([]byte, error) {
 	keySet, err := o.Storage.KeySet(ctx)
 	if err != nil {
-		return nil, fmt.Errorf("error fetching keys: %w", err)
+		return nil, fmt.Errorf("%w: %w", errKeySetUnavailable, err)
 	}
 	keyID, alg := oidc.GetKeyIDAndAlg(jws)
 	key, err := oidc.FindMatchingKey(keyID, oidc.KeyUseSignature, alg, jsonWebKeySet(keySet).Keys...)
